@@ -185,5 +185,77 @@ theorem ext_bridge (code : Int) (len : Nat) (hdr : ExtHdr) (stream : List Item) 
     · simp [hl, hc]
 
 end
+
+/-! ### everything `marshalUnknownValue` writes is an extension item with a `boundPlain` stream -/
+
+theorem encInt_plain (i : Int) : boundPlain (encInt i) = true ∧ isExt (encInt i) = false := by
+  unfold encInt
+  repeat' split
+  all_goals exact ⟨rfl, rfl⟩
+
+theorem encNum_notExt (x : Num) : isExt (encNum x) = false := by
+  unfold encNum
+  split <;> first | rfl | exact (encInt_plain _).2
+
+theorem encInt_bp (i : Int) : boundPlain (encInt i) = true := (encInt_plain i).1
+
+@[simp] theorem bp_int (i : Int) : boundPlain (.int i) = true := rfl
+@[simp] theorem bp_bool (i : Bool) : boundPlain (.bool i) = true := rfl
+@[simp] theorem bp_str (i : String) : boundPlain (.str i) = true := rfl
+theorem bp_bound (x : Num) (i : Bool) : boundPlain (.arr [encNum x, .bool i]) = true := by
+  simp only [boundPlain, List.all_cons, List.all_nil, encNum_notExt]; rfl
+
+theorem boundEntry_all (k : Int) (b : Option Bound) : (boundEntry k b).all boundPlain = true := by
+  cases b <;> simp [boundEntry, bp_bound]
+
+theorem rfnEntries_all (E : Ext) (vt : Ty) (r : Rfn) (sp : List Item) (h : rfnEntries E vt r = .ok sp) :
+    sp.all boundPlain = true := by
+  unfold rfnEntries at h
+  repeat' split at h
+  all_goals first
+    | (cases h; done)
+    | (injection h with h; subst h; simp [List.all_append, boundEntry_all, encInt_bp])
+
+theorem rfnEntries_plain (E : Ext) (vt : Ty) (r : Rfn) (sp : List Item) (h : rfnEntries E vt r = .ok sp) :
+    ∀ v ∈ sp, boundPlain v = true := by
+  have := rfnEntries_all E vt r sp h
+  simpa [List.all_eq_true] using this
+
+theorem marshalUnknown_ext (E : Ext) (vt : Ty) (r : Rfn) (it : Item) (h : marshalUnknown E vt r = .ok it) :
+    ∃ code len hdr stream, it = .ext code len hdr stream ∧ ∀ v ∈ stream, boundPlain v = true := by
+  unfold marshalUnknown at h
+  split at h
+  · injection h with h; subst h; exact ⟨_, _, _, _, rfl, by simp⟩
+  · split at h
+    · rename_i sp hsp
+      have hsp' := rfnEntries_plain E vt r sp hsp
+      have hnull : ∀ v ∈ (if r.nullness = .f then [Item.int keyNullness, .bool false] else []), boundPlain v = true := by
+        split <;> simp
+      generalize (if r.nullness = .f then [Item.int keyNullness, .bool false] else []) = pre at h hnull
+      simp only at h
+      split at h
+      · injection h with h; subst h; exact ⟨_, _, _, _, rfl, by simp⟩
+      · injection h with h; subst h
+        refine ⟨_, _, _, _, rfl, ?_⟩
+        intro v hv
+        rcases List.mem_append.mp hv with hv | hv
+        · exact hnull v hv
+        · exact hsp' v hv
+    all_goals cases h
+
+theorem er_ok_inv {α} {x : Res α} {a : α} (h : er x = .ok a) : x = .ok a := by
+  cases x <;> simp [er] at h ⊢
+  exact h
+
+/-- THE DECODER-SIDE TIE IN C16's TERMS: on anything the (hand-written = regenerated) encoder of unknown values
+writes, what `Msgpack.unmarshal` answers with a value, the regenerated `unmarshalUnknownValue` answers too -/
+theorem generated_decodes [O : EqOracle] (E : Ext) (vt ty : Ty) (r : Rfn) (it : Item) (v : Value)
+    (hm : marshalUnknown E vt r = .ok it) (hu : Msgpack.unmarshal E it ty = .ok v) :
+    toV (Generated.MpUnknownFns.unmarshalUnknownValue E (.atItem it) ty) = .ok v := by
+  obtain ⟨code, len, hdr, stream, rfl, hp⟩ := marshalUnknown_ext E vt r it hm
+  apply er_ok_inv
+  rw [unmarshalUnknownValue_eq, ext_bridge E code len hdr stream ty hp, hu]
+  rfl
+
 end D16b
 end CtyModel
